@@ -193,10 +193,11 @@ def history_oracle(case, obs, checks):
     stored_before = set()
     ever_forced_or_failed = False
     seen_runs = set()
+    mem_runs, epoch = set(), 0
     for k, s in enumerate(steps):
         op = s['op']
         kind = op['op']
-        if kind in ('force_task', 'force_chain', 'fail', 'reset'):
+        if kind in ('force_task', 'force_chain', 'force_multi', 'fail', 'reset'):
             ever_forced_or_failed = True
         if 'values' in checks and kind == 'value' and s['out'] != 'error':
             chains = refs[k]
@@ -212,6 +213,8 @@ def history_oracle(case, obs, checks):
                 return f'step {k}: {kind} ran {s["runs"]}'
             if kind == 'force_chain' and not op.get('recompute') and s['runs']:
                 return f'step {k}: force without recompute ran {s["runs"]}'
+            if kind == 'restart':
+                epoch += 1
             if not ever_forced_or_failed:
                 for r in s['runs']:
                     slug = r.split('#')[0]
@@ -219,6 +222,13 @@ def history_oracle(case, obs, checks):
                     if data != 'memory' and r in seen_runs:
                         return f'step {k}: {r} ran a second time although nothing was forced, failed or deleted'
                     seen_runs.add(r)
+                    # a task that keeps its value in memory only: once per chain object (a new chain or process computes it anew)
+                    if data == 'memory' and 'chain' in op:
+                        mk = (epoch, op['chain'], r)
+                        if mk in mem_runs:
+                            return (f'step {k}: {r} keeps its value in memory and ran a second time through the same chain, although '
+                                    f'nothing was forced, reset or failed')
+                        mem_runs.add(mk)
             if kind == 'value' and s['out'] != 'error' and not ever_forced_or_failed and k > 0:
                 t = chain_obs(steps, k, op['chain'], op['name'])
                 if t is not None:
@@ -561,7 +571,7 @@ Definition hist_model (c : World.world * list op) : list value :=
         # configurations from the chain-construction corpus whose tasks' values depend on per-namespace settings
         for c0 in [c for c in cs if c['base'].get('file') == 'multi.json' and 'model' in str(c['files']) or 'Collect' in str(c['classes'])
                    or c.get('hist')]:
-            c1 = {k: v for k, v in c0.items() if k != 'hist'}
+            c1 = {k: v for k, v in c0.items() if k not in ('hist', 'records')}
             c1['ops'] = [{'op': 'build', 'base': c0['base']}] + [{'op': 'value', 'chain': 0, 'pick': k} for k in range(8)] + \
                         [{'op': 'restart'}, {'op': 'build', 'base': c0['base']}] + [{'op': 'value', 'chain': 0, 'pick': k} for k in range(8)]
             out.append(c1)
